@@ -272,6 +272,13 @@ type File struct {
 	RemainingSource string
 }
 
+// RemainingSourceEndsBlockComment reports whether the remaining source contains the end marker of a block
+// comment (in a comment or a string of its own): it is then emitted as line comments, because inside
+// /* ... */ that marker would end the warning block early and leave the file unparsable.
+func (f *File) RemainingSourceEndsBlockComment() bool {
+	return strings.Contains(f.RemainingSource, "*/")
+}
+
 func (f *File) Imports() string {
 	for _, imp := range f.imports {
 		if imp.Alias == "" {
